@@ -243,7 +243,9 @@ pub fn build_table_from_data(
 
 fn build_table_from_counts(counts: &[usize], max_log: u8, avoid_0_numbit: bool) -> FSETable {
     let mut probs = [0; 256];
-    let probs = &mut probs[..counts.len()];
+    // Always consider at least two symbols: if only symbol 0 occurs there is no second symbol
+    // the zero-bit avoidance below could move probability to.
+    let probs = &mut probs[..counts.len().max(2)];
     let mut min_count = 0;
     for (idx, count) in counts.iter().copied().enumerate() {
         probs[idx] = count as i32;
